@@ -4,6 +4,7 @@ package main
 
 import (
 	"fmt"
+	"os"
 	"strconv"
 	"strings"
 
@@ -14,6 +15,8 @@ import (
 // Input: space-separated ops.
 //   seed.<url>            first op: NewItem("n0", url)
 //   a<pid>.<url>.<r|c|x>  AddChild(new item with the next id, from GotRedirected|GotChildren|invalid)
+//                         <url> = <k> or <k>v<j>: URL id k (the model's URL = the canonical URL.String()),
+//                         written in Raw spelling j of rawSpellings (no selector = v0, Raw == String())
 //   r<pid>.<cid>          pid.RemoveChild(cid)
 //   s<id>.<0..7>          SetStatus
 //   d                     seed.DedupeItems()
@@ -28,18 +31,85 @@ type treeRun struct {
 	urls  map[string]int
 }
 
-func mkURL(k int) *models.URL {
-	u := &models.URL{Raw: fmt.Sprintf("http://h.example/u%d", k)}
+// URL identity.  In the model a URL is a number: it stands for the canonical text URL.String(), which is
+// what the pipeline builds the request from, seenchecks and fetches - NOT for URL.Raw, which is finer:
+// String() re-encodes the query parameter by parameter (pkg/models/url.go encodeQuery) and, like
+// url.ParseQuery, drops empty parameters, parameters containing a semicolon and parameters with an
+// invalid percent-escape.  URL id k is http://h.example/u<k>; rawSpellings are Raw texts that differ
+// from each other but all give that same String().  The observation that goes into the Coq case
+// (urlIndex) is computed from String() only.
+var rawSpellings = []string{
+	"",       // v0: Raw == String()
+	"?&",     // v1: only empty parameters
+	"?a;b=1", // v2: a parameter containing a semicolon
+	"?%zz&&", // v3: a parameter with an invalid percent-escape, and empty ones
+}
+
+func canonURL(k int) string { return fmt.Sprintf("http://h.example/u%d", k) }
+
+func treeFatal(format string, a ...any) {
+	fmt.Fprintf(os.Stderr, "tree driver: "+format+"\n", a...)
+	os.Exit(4)
+}
+
+// mkURL builds URL id k in Raw spelling v and insists that the real String() is the canonical text:
+// if the implementation stops canonicalising one of the spellings, that is not a finding about the
+// item tree - the driver stops with an explanation instead of reporting surviving "duplicates".
+func mkURL(k, v int) *models.URL {
+	if v < 0 || v >= len(rawSpellings) {
+		treeFatal("no Raw spelling v%d (have v0..v%d)", v, len(rawSpellings)-1)
+	}
+	u := &models.URL{Raw: canonURL(k) + rawSpellings[v]}
 	if err := u.Parse(); err != nil {
-		panic(err)
+		treeFatal("Raw spelling v%d of URL id %d (%q) does not parse: %v", v, k, u.Raw, err)
+	}
+	if got := u.String(); got != canonURL(k) {
+		treeFatal("precondition of the C11 drivers broken: Raw spelling v%d of URL id %d (%q) has String() %q, expected %q - "+
+			"the spellings of one URL id must share one String(); no item-tree case was run", v, k, u.Raw, got, canonURL(k))
 	}
 	return u
+}
+
+// treeSetup: once per process, before any case - every spelling of a range of ids has the canonical
+// String(), and the spellings are pairwise different Raw texts (otherwise they exercise nothing).
+func treeSetup() {
+	for k := 0; k < 16; k++ {
+		seen := map[string]int{}
+		for v := range rawSpellings {
+			u := mkURL(k, v)
+			if w, dup := seen[u.Raw]; dup {
+				treeFatal("Raw spellings v%d and v%d of URL id %d are the same text %q", w, v, k, u.Raw)
+			}
+			seen[u.Raw] = v
+		}
+	}
+}
+
+// parseURLSpec: "<k>" or "<k>v<j>"
+func parseURLSpec(s string) (k, v int) {
+	ks, vs, has := strings.Cut(s, "v")
+	k, err := strconv.Atoi(ks)
+	if err != nil {
+		treeFatal("bad URL id in %q", s)
+	}
+	if has {
+		if v, err = strconv.Atoi(vs); err != nil {
+			treeFatal("bad Raw spelling selector in %q", s)
+		}
+	}
+	return k, v
 }
 
 func urlIndex(it *models.Item) int {
 	s := it.GetURL().String()
 	i := strings.LastIndex(s, "/u")
-	k, _ := strconv.Atoi(s[i+2:])
+	if i < 0 {
+		treeFatal("node %s: String() %q is not one of the driver's canonical URLs", it.GetID(), s)
+	}
+	k, err := strconv.Atoi(s[i+2:])
+	if err != nil || s != canonURL(k) {
+		treeFatal("node %s: String() %q is not one of the driver's canonical URLs", it.GetID(), s)
+	}
 	return k
 }
 
@@ -52,8 +122,8 @@ func idIndex(it *models.Item) int {
 func (t *treeRun) applyOp(op string) (ret int) {
 	switch {
 	case strings.HasPrefix(op, "seed."):
-		k, _ := strconv.Atoi(op[5:])
-		t.seed = models.NewItem("n0", mkURL(k), "")
+		k, v := parseURLSpec(op[5:])
+		t.seed = models.NewItem("n0", mkURL(k, v), "")
 		t.nodes = []*models.Item{t.seed}
 	case op == "d":
 		if err := t.seed.DedupeItems(); err != nil {
@@ -67,7 +137,7 @@ func (t *treeRun) applyOp(op string) (ret int) {
 	case op[0] == 'a':
 		f := strings.Split(op[1:], ".")
 		pid, _ := strconv.Atoi(f[0])
-		u, _ := strconv.Atoi(f[1])
+		u, v := parseURLSpec(f[1])
 		from := models.ItemFresh
 		switch f[2] {
 		case "r":
@@ -75,7 +145,7 @@ func (t *treeRun) applyOp(op string) (ret int) {
 		case "c":
 			from = models.ItemGotChildren
 		}
-		child := models.NewItem(fmt.Sprintf("n%d", len(t.nodes)), mkURL(u), "")
+		child := models.NewItem(fmt.Sprintf("n%d", len(t.nodes)), mkURL(u, v), "")
 		t.nodes = append(t.nodes, child)
 		if pid < len(t.nodes)-1 {
 			if err := t.nodes[pid].AddChild(child, from); err != nil {
@@ -161,7 +231,8 @@ func (t *treeRun) observe(ret int) string {
 func coqOp(op string) string {
 	switch {
 	case strings.HasPrefix(op, "seed."):
-		return "OSeed " + op[5:]
+		k, _ := parseURLSpec(op[5:])
+		return fmt.Sprintf("OSeed %d", k)
 	case op == "d":
 		return "ODedupe"
 	case op == "k":
@@ -176,7 +247,8 @@ func coqOp(op string) string {
 		} else if f[2] == "c" {
 			from = "GotChildren"
 		}
-		return fmt.Sprintf("OAdd %s %s %s", f[0], f[1], from)
+		k, _ := parseURLSpec(f[1])
+		return fmt.Sprintf("OAdd %s %d %s", f[0], k, from)
 	case op[0] == 'r':
 		f := strings.Split(op[1:], ".")
 		return fmt.Sprintf("ORemove %s %s", f[0], f[1])
@@ -209,9 +281,21 @@ func execTree(in string) Result {
 	if strings.Contains(in, "|") {
 		shape = "pipeline"
 	}
+	// rawvariants:yes = two nodes created in this case carry the same URL (one String()) in different Raw spellings
+	rawv := "no"
+	spelt := map[string]string{}
+	for _, n := range t.nodes {
+		u := n.GetURL()
+		if raw, ok := spelt[u.String()]; ok && raw != u.Raw {
+			rawv = "yes"
+		} else if !ok {
+			spelt[u.String()] = u.Raw
+		}
+	}
 	return Result{
-		Term:       fmt.Sprintf("TC %s %s", coqBool(shape == "pipeline"), coqList(steps)),
-		Tags:       []string{"shape:" + shape, fmt.Sprintf("nodes:%d", bucket(len(t.nodes))), fmt.Sprintf("ops:%d", bucket(len(ops)))},
+		Term: fmt.Sprintf("TC %s %s", coqBool(shape == "pipeline"), coqList(steps)),
+		Tags: []string{"shape:" + shape, fmt.Sprintf("nodes:%d", bucket(len(t.nodes))), fmt.Sprintf("ops:%d", bucket(len(ops))),
+			"rawvariants:" + rawv},
 		Nontrivial: nadd >= 2 && (nd > 0 || nk > 0),
 	}
 }
@@ -232,10 +316,26 @@ func bucket(n int) int {
 	return 128
 }
 
+// speller: in 3 cases out of 4 every URL of the case is written in a random Raw spelling (same
+// URL id, same String(), different Raw); otherwise, as before, Raw == String() everywhere.
+func speller(r *Rng, pct int) func() string {
+	on := r.Chance(pct)
+	return func() string {
+		if !on {
+			return ""
+		}
+		if v := r.Intn(len(rawSpellings)); v > 0 {
+			return fmt.Sprintf("v%d", v)
+		}
+		return ""
+	}
+}
+
 // genTreeRandom: arbitrary API ops (the model is faithful outside the invariant too)
 func genTreeRandom(r *Rng) string {
 	t := &treeRun{}
-	ops := []string{fmt.Sprintf("seed.%d", r.Intn(4))}
+	sp := speller(r, 75)
+	ops := []string{fmt.Sprintf("seed.%d%s", r.Intn(4), sp())}
 	t.applyOp(ops[0])
 	n := 3 + r.Intn(14)
 	for i := 0; i < n; i++ {
@@ -248,7 +348,7 @@ func genTreeRandom(r *Rng) string {
 			} else if r.Chance(5) {
 				from = "x"
 			}
-			op = fmt.Sprintf("a%d.%d.%s", r.Intn(len(t.nodes)), r.Intn(5), from)
+			op = fmt.Sprintf("a%d.%d%s.%s", r.Intn(len(t.nodes)), r.Intn(5), sp(), from)
 		case 4:
 			op = fmt.Sprintf("r%d.%d", r.Intn(len(t.nodes)), r.Intn(len(t.nodes)))
 		case 5, 6:
@@ -269,7 +369,8 @@ func genTreeRandom(r *Rng) string {
 // finisher: complete-and-check), driven on a real tree to know what is at the working depth.
 func genTreePipeline(r *Rng) string {
 	t := &treeRun{}
-	ops := []string{fmt.Sprintf("seed.%d", r.Intn(3))}
+	sp := speller(r, 75)
+	ops := []string{fmt.Sprintf("seed.%d%s", r.Intn(3), sp())}
 	do := func(op string) int {
 		ops = append(ops, op)
 		return t.applyOp(op)
@@ -346,11 +447,11 @@ func genTreePipeline(r *Rng) string {
 				}
 				switch c := r.Intn(10); {
 				case c < 2:
-					do(fmt.Sprintf("a%d.%d.r", idIndex(n), r.Intn(pool)))
+					do(fmt.Sprintf("a%d.%d%s.r", idIndex(n), r.Intn(pool), sp()))
 				case c < 7 && pass < maxPasses-1:
 					k := 1 + r.Intn(4)
 					for j := 0; j < k; j++ {
-						do(fmt.Sprintf("a%d.%d.c", idIndex(n), r.Intn(pool)))
+						do(fmt.Sprintf("a%d.%d%s.c", idIndex(n), r.Intn(pool), sp()))
 					}
 				default:
 					do(fmt.Sprintf("s%d.4", idIndex(n)))
@@ -395,9 +496,10 @@ func treeExCount(n int) int {
 func genTreeDup(r *Rng) string {
 	n := 4 + r.Intn(5)
 	pool := 1 + r.Intn(2)
+	sp := speller(r, 75)
 	ops := []string{"seed.0"}
 	for j := 1; j < n; j++ {
-		ops = append(ops, fmt.Sprintf("a%d.%d.c", r.Intn(j), 1+r.Intn(pool)))
+		ops = append(ops, fmt.Sprintf("a%d.%d%s.c", r.Intn(j), 1+r.Intn(pool), sp()))
 	}
 	for j := 0; j < n; j++ {
 		st := r.Intn(8)
@@ -429,7 +531,8 @@ func genTreeExhaustive(i int) string {
 		x /= j
 		u := x % 2
 		x /= 2
-		ops = append(ops, fmt.Sprintf("a%d.%d.c", p, u))
+		// node j is written in Raw spelling j mod 4: any two same-URL nodes of a tree of <= 4 nodes differ in Raw
+		ops = append(ops, fmt.Sprintf("a%d.%d%s.c", p, u, []string{"", "v1", "v2", "v3"}[j%4]))
 	}
 	for j := 0; j < n; j++ {
 		st := x % 8
@@ -463,6 +566,29 @@ func shrinkTree(in string) []string {
 			out = append(out, strings.Join(c, " "))
 		}
 	}
+	// write a URL in the plain spelling (Raw == String()): all at once, then one at a time
+	plain := func(op string) string {
+		if op[0] != 'a' && !strings.HasPrefix(op, "seed.") {
+			return op
+		}
+		f := strings.Split(op, ".")
+		f[1], _, _ = strings.Cut(f[1], "v")
+		return strings.Join(f, ".")
+	}
+	all := make([]string, len(ops))
+	for i, op := range ops {
+		all[i] = plain(op)
+	}
+	if a := strings.Join(all, " "); a != in {
+		out = append(out, a)
+	}
+	for i, op := range ops {
+		if p := plain(op); p != op {
+			c := append([]string{}, ops...)
+			c[i] = p
+			out = append(out, strings.Join(c, " "))
+		}
+	}
 	return out
 }
 
@@ -472,7 +598,8 @@ func init() {
 		Header:   "From ZenoV Require Import Lib.Harness Tree.Item Tree.TreeHarness.\nOpen Scope N_scope.\n",
 		CaseType: "tcase",
 		Footer:   stdFooter,
-		Rule:     "one case = an operation sequence on a real models.Item tree (public API), observed after every op (tree, CheckConsistency rule, max depth, working level, depths without redirections, pointer symmetry, return value); two generators: pipeline-shaped sequences (stage-like passes with duplicate-rich URL pools) and arbitrary API sequences; non-trivial when the sequence adds >= 2 nodes and runs dedupe or complete-and-check",
+		Rule:     "one case = an operation sequence on a real models.Item tree (public API), observed after every op (tree, CheckConsistency rule, max depth, working level, depths without redirections, pointer symmetry, return value); three generators: pipeline-shaped sequences (stage-like passes with duplicate-rich URL pools), arbitrary API sequences and a collision stream; a node's URL in the observation is the canonical id derived from URL.String(); in 3 generated cases out of 4 every URL is written in a random one of 4 Raw spellings, so nodes of one URL id are written in different Raw spellings that share one String() (tag rawvariants:yes when two nodes of the case carry one URL in two Raw spellings), checked at start-up; non-trivial when the sequence adds >= 2 nodes and runs dedupe or complete-and-check",
+		Setup:    treeSetup,
 		Gen: func(r *Rng, i int, tier string) string {
 			switch i % 4 {
 			case 2:
@@ -490,7 +617,8 @@ func init() {
 		Header:   "From ZenoV Require Import Lib.Harness Tree.Item Tree.TreeHarness.\nOpen Scope N_scope.\n",
 		CaseType: "tcase",
 		Footer:   stdFooter,
-		Rule:     "exhaustive small scope: case i is the i-th element of the enumeration of all trees (every parent vector, url in {0,1} per non-seed node) x all 8 statuses per node x final op in {dedupe, complete, dedupe+complete}; sizes ascending: 24 + 384 + 12288 cases cover every tree of <= 3 nodes, + 589824 every tree of <= 4 nodes; non-trivial when the tree has >= 3 nodes",
+		Rule:     "exhaustive small scope: case i is the i-th element of the enumeration of all trees (every parent vector, url in {0,1} per non-seed node) x all 8 statuses per node x final op in {dedupe, complete, dedupe+complete}; node j is written in Raw spelling j mod 4 (same String(), so any two same-URL nodes differ in Raw); sizes ascending: 24 + 384 + 12288 cases cover every tree of <= 3 nodes, + 589824 every tree of <= 4 nodes; non-trivial when the tree has >= 3 nodes",
+		Setup:    treeSetup,
 		Gen:      func(r *Rng, i int, tier string) string { return genTreeExhaustive(i) },
 		Exec:     execTree,
 		Shrink:   shrinkTree,
